@@ -45,7 +45,7 @@ from .. import common, vloop
 
 POLL = 1.0
 EPS = 1e-9
-KINDS = ["periodic", "iterable", "textfile", "filenames", "q"]
+KINDS = ["periodic", "iterable", "textfile", "filenames", "q", "periodic-tornado"]
 
 _run_id = contextvars.ContextVar("c18_run_id", default=None)
 
@@ -151,11 +151,23 @@ def run_impl(case, scratch):
         kw = dict(asynchronous=True, loop=IOLoop.current())
         counter = [0]
         fobj = d = None
-        if kind == "periodic":
+        if kind in ("periodic", "periodic-tornado"):
             def cb():
                 counter[0] += 1
                 return counter[0] - 1
-            src = Stream.from_periodic(cb, POLL, **kw)
+            if kind == "periodic-tornado":
+                # a plugin-style source: the same polling loop written as a tornado coroutine - run() returns a Future, not a coroutine
+                import streamz.sources as ssrc
+                from tornado import gen
+
+                class TornadoPeriodic(ssrc.from_periodic):
+                    @gen.coroutine
+                    def run(self):
+                        while not self.stopped:
+                            yield self._run()
+                src = TornadoPeriodic(cb, POLL, **kw)
+            else:
+                src = Stream.from_periodic(cb, POLL, **kw)
         elif kind == "iterable":
             src = Stream.from_iterable(_RecIterable(case["items"], case["shared"], rec), **kw)
         elif kind == "textfile":
@@ -190,17 +202,26 @@ def run_impl(case, scratch):
                 return r
             finally:
                 rec("run-exit")
-        src.run = run_wrapper
+        if kind == "periodic-tornado":
+            # keep what the kind is about: run() hands back a Future (a Task), not a coroutine object
+            src.run = lambda: asyncio.ensure_future(run_wrapper())
+        else:
+            src.run = run_wrapper
 
         if kind != "iterable":
             orig_cycle = src._run
 
-            async def cycle_wrapper():
+            def cycle_wrapper():
+                # the cycle begins when run() CALLS _run() (a tornado-style run() only schedules the coroutine it yields: its body
+                # starts one loop iteration later, but the decision to poll again has been taken here)
                 rec("cycle-begin")
-                try:
-                    return await orig_cycle()
-                finally:
-                    rec("cycle-end")
+
+                async def body():
+                    try:
+                        return await orig_cycle()
+                    finally:
+                        rec("cycle-end")
+                return body()
             src._run = cycle_wrapper
 
         nw = [0]
@@ -316,7 +337,7 @@ def oracle(case, log):
             if last_ctl != "start":
                 return ("cycle-after-stop", "polling cycle begins at t=%s although the last control call is %s (event %d)"
                         % (ev["t"], last_ctl, i))
-            if kind in ("periodic", "filenames") and last_cycle_t is not None and ev["t"] - last_cycle_t < POLL - EPS:
+            if kind in ("periodic", "periodic-tornado", "filenames") and last_cycle_t is not None and ev["t"] - last_cycle_t < POLL - EPS:
                 return ("poll-rate", "polling cycles begin at t=%s and t=%s, less than poll_interval=%s apart (event %d)"
                         % (last_cycle_t, ev["t"], POLL, i))
             last_cycle_t = ev["t"]
@@ -368,7 +389,7 @@ def oracle(case, log):
                                 "item %r emitted where the current run should emit %r: the emission log is not a "
                                 "concatenation of prefixes of the iterable (event %d)" % (x, items[k] if k < len(items) else None, i))
                     k += 1
-            elif kind == "periodic":
+            elif kind in ("periodic", "periodic-tornado"):
                 if x != n_emit - 1:
                     return ("emission-order", "from_periodic emitted %r as its %d-th value" % (x, n_emit))
             else:
@@ -663,8 +684,9 @@ def check_case(ctx, case, obs, answers_fixed, answers_orig, scratch):
                     observed=[_short(ev) for ev in log[:60]],
                     oracle="one run() invocation at a time; no cycle after stop; a started source polls; redundant calls are "
                            "identities; from_iterable emits prefixes of its items waiting for downstream")
-    # --- trace acceptance by the model
-    if answers_fixed is not None:
+    # --- trace acceptance by the model (not for the tornado-style subclass: its run() is a Task the harness creates, whose first step
+    #     is one loop iteration behind the invocation the model describes; the model-free statements above apply to it unchanged)
+    if answers_fixed is not None and case["kind"] != "periodic-tornado":
         # `_run_live` is a private attribute: it is compared when the tree has it under that name and ignored otherwise
         # (a harmless rename must not matter); the trace itself has to be accepted by the fixed-code model either way
         check_rl = any(ev["rl"] is not None for ev in log)
